@@ -252,7 +252,13 @@ def evaluate(L, lines, want_fparser=False):
         fails.append(("idempotent", f"second application gives {again!r}"))
     if real_long(L, res[1]):
         fails.append(("length", "long_lines() is true of the output"))
-    if want_fparser and a == b:
+    # F2008 3.3.2.4: "&" shall not be the only nonblank character of a line
+    amp_only = [l for l in out if l.strip() == "&"]
+    if amp_only and not any(l.strip() == "&" for l in lines):
+        fails.append(("ampersand-only-line", f"output has a line whose only nonblank character is '&': {amp_only[0]!r}"))
+    # (fparser reads leading digits as a statement label, which it cannot follow over a continuation: such
+    # malformed-stream lines get no verdict from the second oracle)
+    if want_fparser and a == b and not any(l.lstrip()[:1].isdigit() for l in lines):
         try:
             fa, fb = fparser_statements(text), fparser_statements(res[1])
         except Exception:          # fparser refuses malformed text: no verdict
@@ -268,6 +274,11 @@ REASON_TO_FINDING = {"inline-comment": "C18-trailing-comment-split",
                      "directive-compound-eq": "C18-directive-compound-operator-split"}
 
 
+def _amp_only_output(L, lines):
+    res = real_process(L, "\n".join(lines))
+    return res[0] != "err" and any(l.strip() == "&" for l in res[1].split("\n")) and not any(l.strip() == "&" for l in lines)
+
+
 def classify_failure(L, lines, clause, active_ids, breakable=None):
     """The known-finding ids whose classifier accepts this failing input."""
     fx = fixed_mode()
@@ -276,6 +287,8 @@ def classify_failure(L, lines, clause, active_ids, breakable=None):
             cmd = "breakableF" if fx else "breakable"
             breakable = driver("C18", [f"({cmd} {L} " + " ".join(enc(l) for l in lines) + ")"])[0] == "1"
         return set() if breakable else {"C18-unbreakable-raises", "C18-unbreakable-directive-raises"} & active_ids
+    if clause == "ampersand-only-line" or (clause == "same-program-fparser" and _amp_only_output(L, lines)):
+        return {"C18-ampersand-only-line"} & active_ids
     if clause in ("same-program", "same-program-fparser"):
         ids = {REASON_TO_FINDING[r] for _, r in spec.unsafe_reasons(L, lines, fixed=fx, line_type=live_type)}
         if fx:      # repaired classes are no longer excused
